@@ -177,6 +177,9 @@ def probe(ctx, counters):
 
 
 def block(ctx, item, counters, K, depth, can_return=True):
+    if item[0] == "store":
+        # the store is the first statement of its block: no expression has used the block's temporaries yet
+        return stmts(ctx, item, counters, K, depth, can_return) + [probe(ctx, counters)]
     return [probe(ctx, counters)] + stmts(ctx, item, counters, K, depth, can_return) + [probe(ctx, counters)]
 
 
